@@ -269,3 +269,44 @@ Check c03_conformant_session_example : exists s rd os st,
   conformant s /\ length s = 2%nat /\ data_only rd /\ bytes_of rd = wire s /\ In RNotReady rd /\ (length rd = 6)%nat /\
   fr_trace 5 rf_init rd = (os, st, []) /\ In PPending os /\ frames_of os = expected s /\ rf_buf st = [].
 Print Assumptions c03_conformant_session_example.
+
+(* the conversation: the k-th command answered by responses that are not a completion carrying its tag, followed by one
+   that is (each in any RFC spelling); any chunking, any not-ready / write / flush schedule; streams polled until they
+   end: the k-th stream hands out exactly the k-th answer, value for value and byte for byte, and nothing is left over
+   (C05's first sentence with the RFC spellings as the server's language; the generic form is pinned with C05) *)
+Theorem c03_conversation : forall answers ops c c' started outs,
+  session ops c = (c', started, outs) ->
+  c_rf c = rf_init -> data_only (io_rd (c_io c)) -> bytes_of (io_rd (c_io c)) = wire (List.concat answers) ->
+  conformant (List.concat answers) ->
+  c_next c + N.of_nat (length ops) <= Tags.U64_MAX ->
+  Forall2 answer_for (tags_from (c_next c) (length ops)) answers ->
+  Forall (In PNone) outs ->
+  map frames_of outs = map expected answers /\ rf_buf (c_rf c') = [].
+Proof. exact conversation_lemma. Qed.
+Check c03_conversation : forall answers ops c c' started outs,
+  session ops c = (c', started, outs) ->
+  c_rf c = rf_init -> data_only (io_rd (c_io c)) -> bytes_of (io_rd (c_io c)) = wire (List.concat answers) ->
+  conformant (List.concat answers) ->
+  c_next c + N.of_nat (length ops) <= Tags.U64_MAX ->
+  Forall2 answer_for (tags_from (c_next c) (length ops)) answers ->
+  Forall (In PNone) outs ->
+  map frames_of outs = map expected answers /\ rf_buf (c_rf c') = [].
+Print Assumptions c03_conversation.
+
+(* non-vacuity: two commands; STATUS (quoted mailbox with an escaped quote) + `A0001 OK`; then `a0002 OK` -- a completion that
+   is not the second command's own, its tag differs in case -- + `A0002 no`; five transport events *)
+Theorem c03_conversation_example : exists answers ops t,
+  length answers = 2%nat /\ conformant (List.concat answers) /\ Forall2 answer_for (tags_from 0 2) answers /\
+  data_only (io_rd t) /\ bytes_of (io_rd t) = wire (List.concat answers) /\ length (io_rd t) = 5%nat /\
+  match session ops (client_init t) with
+  | (c', started, outs) => Forall (In PNone) outs /\ map frames_of outs = map expected answers /\ rf_buf (c_rf c') = []
+  end.
+Proof. exact conversation_example. Qed.
+Check c03_conversation_example : exists answers ops t,
+  length answers = 2%nat /\ conformant (List.concat answers) /\ Forall2 answer_for (tags_from 0 2) answers /\
+  data_only (io_rd t) /\ bytes_of (io_rd t) = wire (List.concat answers) /\ length (io_rd t) = 5%nat /\
+  match session ops (client_init t) with
+  | (c', started, outs) => Forall (In PNone) outs /\ map frames_of outs = map expected answers /\ rf_buf (c_rf c') = []
+  end.
+Print Assumptions c03_conversation_example.
+
